@@ -20,6 +20,8 @@ structure BR where
   readerSize : Option Nat
   /-- `br.r` implements io.ReadSeeker (v1 over a seekable source only) -/
   seekable : Bool
+  /-- bytes *read* from the underlying source so far (seeks do not count) -/
+  consumed : Nat := 0
   deriving Repr
 
 structure BlockMeta where
@@ -36,7 +38,8 @@ def newBlockReader (o : ReadOpts) (seekable : Bool) (src : Bytes) : Except Err B
   | .ok (h, rest) =>
     if h.version = 1 then
       .ok { version := 1, roots := h.rootList, rest := rest, srcLen := src.length,
-            offset := headerSize h, v1offset := 0, readerSize := none, seekable := seekable }
+            offset := headerSize h, v1offset := 0, readerSize := none, seekable := seekable,
+            consumed := src.length - rest.length }
     else if h.version = 2 then
       match readV2Header rest with
       | .error e => .error e
@@ -52,7 +55,8 @@ def newBlockReader (o : ReadOpts) (seekable : Bool) (src : Bytes) : Except Err B
           if h1.version ≠ 1 then .error .badVersion
           else .ok { version := 2, roots := h1.rootList, rest := wrest, srcLen := src.length,
                      offset := v2h.dataOffset + headerSize h1, v1offset := v2h.dataOffset,
-                     readerSize := some (v2h.dataOffset + v2h.dataSize), seekable := false }
+                     readerSize := some (v2h.dataOffset + v2h.dataSize), seekable := false,
+                     consumed := 51 + (if seekable then 0 else skip) + (window.length - wrest.length) }
     else .error .badVersion
 
 /-- `BlockReader.Next`. -/
@@ -61,7 +65,8 @@ def BR.next (H : HashFn) (o : ReadOpts) (br : BR) : Except Err (Block × BR) :=
   | .error e => .error e
   | .ok (b, rest) =>
     let ss := b.cid.byteLen + b.data.length
-    .ok (b, { br with rest := rest, offset := br.offset + uvarintSize ss + ss })
+    .ok (b, { br with rest := rest, offset := br.offset + uvarintSize ss + ss,
+                      consumed := br.consumed + (br.rest.length - rest.length) })
 
 /-- `BlockReader.SkipNext`. -/
 def BR.skipNext (o : ReadOpts) (br : BR) : Except Err (BlockMeta × BR) :=
@@ -81,11 +86,13 @@ def BR.skipNext (o : ReadOpts) (br : BR) : Except Err (BlockMeta × BR) :=
         let final := br.offset + lenSize + l
         if final > br.srcLen then .error .unexpectedEOF
         else .ok (⟨c, br.offset - br.v1offset, br.offset, blockSize⟩,
-                  { br with rest := after.drop blockSize, offset := final, readerSize := some br.srcLen })
+                  { br with rest := after.drop blockSize, offset := final, readerSize := some br.srcLen,
+                            consumed := br.consumed + lenSize + n })
       else
         if after.length < blockSize then .error .unexpectedEOF
         else .ok (⟨c, br.offset - br.v1offset, br.offset, blockSize⟩,
-                  { br with rest := after.drop blockSize, offset := br.offset + lenSize + n + blockSize })
+                  { br with rest := after.drop blockSize, offset := br.offset + lenSize + n + blockSize,
+                            consumed := br.consumed + lenSize + n + blockSize })
 
 /-- Drain with `Next()`. -/
 def BR.drain (H : HashFn) (o : ReadOpts) (br : BR) : List Block × Err :=
@@ -96,5 +103,32 @@ def scanBlockReader (H : HashFn) (o : ReadOpts) (seekable : Bool) (src : Bytes) 
   match newBlockReader o seekable src with
   | .error e => .error e
   | .ok br => let r := br.drain H o; .ok ⟨br.roots, r.1, r.2⟩
+
+end Car
+
+namespace Car
+
+/-- What one step of a mixed Next/SkipNext iteration yields. -/
+inductive Visit
+  | read (b : Block)
+  | skipped (m : BlockMeta)
+  deriving DecidableEq, Repr
+
+def Visit.cid : Visit → Cid
+  | .read b => b.cid
+  | .skipped m => m.cid
+
+/-- Iterate with `choice i = true` ⇒ `SkipNext`, `false` ⇒ `Next`, until an error (eof = clean end). -/
+def BR.runChoices (H : HashFn) (o : ReadOpts) (choice : Nat → Bool) : (fuel i : Nat) → BR → List Visit × Err
+  | 0, _, _ => ([], .other)
+  | fuel + 1, i, br =>
+    if choice i then
+      match br.skipNext o with
+      | .error e => ([], e)
+      | .ok (m, br') => let r := BR.runChoices H o choice fuel (i + 1) br'; (.skipped m :: r.1, r.2)
+    else
+      match br.next H o with
+      | .error e => ([], e)
+      | .ok (b, br') => let r := BR.runChoices H o choice fuel (i + 1) br'; (.read b :: r.1, r.2)
 
 end Car
